@@ -601,6 +601,9 @@ def r8_request_and_terminator(ctx):
                "has none, so requiring all sampled lines would skip the adjustment for a short last chunk)", ok, u(test), key="C01-R8|multiline-sniff")
 
 
+from ..through_time import make_rule as _mk_tt
+_through_time = _mk_tt("C01")
+
 RULES = [
     ("C01-R7", r7_crlf_sniff),
     ("C01-R6", r6_cross_chunk_scan),
@@ -610,4 +613,5 @@ RULES = [
     ("C01-R4", r4_every_format_cuts),
     ("C01-R5", r5_stream_termination),
     ("C01-R8", r8_request_and_terminator),
+    ("C01-T1", _through_time),
 ]
